@@ -526,6 +526,16 @@ Walk:
 				if !lazy {
 					copyWithResize(c.tsrParams, c.params)
 				}
+			} else if charsMatched == len(path) && charsMatchedInNodeFound == len(current.key) {
+				// Tsr recommendation: add an extra trailing slash. The path ends exactly on this intermediary node and
+				// one of its children is the leaf "/" (e.g. /foo/ with /foo/ and /foobar registered).
+				if idx := linearSearch(current.childKeys, slashDelim); idx >= 0 && len(current.children[idx].key) == 1 && current.children[idx].isLeaf() {
+					tsr = true
+					n = current.children[idx]
+					if !lazy {
+						copyWithResize(c.tsrParams, c.params)
+					}
+				}
 			}
 		}
 
